@@ -82,6 +82,7 @@ inline bool is_compute(int k) { return k == O_STEP || k == O_FORWARD || k == O_I
 // garbage on the unchanged tree; none of them is an output named by any property.
 inline std::set<std::string> scratch_fields(const mjModel* m) {
   std::set<std::string> ex = {"iacc", "iacc_smooth", "iefc_aref", "iefc_force", "iefc_state", "ifrc_constraint", "ifrc_smooth"};
+  ex.insert("contact.H");   // cone Hessian: solver-internal storage, written only for contacts in the cone state
   if (!mj_isSparse(m)) for (const char* s : {"efc_J_rownnz", "efc_J_rowadr", "efc_J_rowsuper", "efc_J_colind"}) ex.insert(s);   // dense Jacobian: sparse structure unused
   return ex;
 }
